@@ -265,6 +265,20 @@ SPECS = {
         ("mooney_W_constant", R + "Models/HyperElastic/_laws.py", "        W = K * (I1 / I3 ** (1 / 3) - 3)", "        W = K * (I1 / I3 ** (1 / 3) - 3) + 1e-3 * K"),
         ("state_F_transposed", R + "Models/HyperElastic/_state.py", "        F_e_pg = np.eye(3) + grad_e_pg\n", "        F_e_pg = np.eye(3) + grad_e_pg.T\n"),
     ],
+    "C19": [
+        ("bound_dgamma_dropped", R + "Models/InElastic/_behavior.py", "            u_e_pg[..., nz] = np.maximum(u_e_pg[..., nz], 0.0)", "            u_e_pg[..., nz] = u_e_pg[..., nz] * 1.0"),
+        ("recall_sign", R + "Models/InElastic/_behavior.py", "                r_e_pg[..., B] = u_e_pg[..., B] - dG_e_pg * (\n                    N_e_pg - component.recall * z_e_pg[..., B]\n                )", "                r_e_pg[..., B] = u_e_pg[..., B] - dG_e_pg * (\n                    N_e_pg + component.recall * z_e_pg[..., B]\n                )"),
+        ("jacobian_missing_hardening_slope", R + "Models/InElastic/_behavior.py", "            J_e_pg[..., nz, A.start] = -dR_e_pg", "            J_e_pg[..., nz, A.start] = -0.5 * dR_e_pg"),
+        ("tangent_branch_term_dropped", R + "Models/InElastic/_behavior.py", "            C_alg = C_alg - branch.g * (\n                C_e_pg @ dudeps[..., layout.slots[f\"{Slot.eps_v}{i}\"], :]\n            )", "            C_alg = C_alg - 0.9 * branch.g * (\n                C_e_pg @ dudeps[..., layout.slots[f\"{Slot.eps_v}{i}\"], :]\n            )"),
+        ("condense_symmetrised", R + "Models/InElastic/_behavior.py", "        return C_in - TensorProd(c_iz, c_zi) / c_zz", "        return C_in - TensorProd(c_iz, c_iz) / c_zz"),
+        ("plane_stress_tol_loose", R + "Models/InElastic/_behavior.py", "    _planeStress_tol: float = 1e-8  # relative to the yield scale", "    _planeStress_tol: float = 1e-3  # relative to the yield scale"),
+        ("spectral_plastic_strain_from_trial", R + "Models/InElastic/_behavior.py", "        z_e_pg[..., P] = eps6_e_pg - Cinv_e_pg @ res.sig", "        z_e_pg[..., P] = eps6_e_pg - Cinv_e_pg @ (0.999 * res.sig + 0.001 * sigTr_e_pg)"),
+        ("integrate_writes_state", R + "Models/InElastic/_behavior.py", "        z_e_pg = (zOld_e_pg + u[..., :nz]).copy()", "        zOld_e_pg += u[..., :nz]\n        z_e_pg = zOld_e_pg"),
+        ("simu_commits_on_assembly", R + "Simulations/_inelastic.py", "            self.__z[groupElem.elemType] = z_e_pg\n", "            self.__z[groupElem.elemType] = z_e_pg\n            self.__zOld[groupElem.elemType] = z_e_pg\n"),
+        ("druckerprager_normal_no_pressure_term", R + "Models/InElastic/Yield.py", "        return _Normal_J2(sig_e_pg) + eta * _kelvin.ONE", "        return _Normal_J2(sig_e_pg) + 0.5 * eta * _kelvin.ONE"),
+        ("voce_slope", R + "Models/InElastic/IsotropicHardening.py", "        lambda p: Q * b * np.exp(-b * p),", "        lambda p: Q * b * np.exp(-b * p) * 0.8,"),
+        ("viscoelastic_rate_sign", R + "Models/InElastic/_behavior.py", "            r_e_pg[..., slot] = u_e_pg[..., slot] - (dt / branch.tau) * (\n                eel_e_pg - z_e_pg[..., slot]\n            )", "            r_e_pg[..., slot] = u_e_pg[..., slot] + (dt / branch.tau) * (\n                eel_e_pg - z_e_pg[..., slot]\n            )"),
+    ],
 }
 
 
